@@ -253,6 +253,7 @@ Proof.
     unfold after_open_polling. apply emits_bind.
     + pose proof (receive_all_reason t rest) as R. destruct (has_close rest); [apply (among_only _ RServer); [reflexivity | exact R] | apply among_nd; exact R].
     + intros ?. apply among_nd. apply emits_bind; [apply emits_getst|]. intros s0.
+      destruct (state s0); try apply nd_conn_done.
       destruct (upgrades_ws s0 && existsb _ (transports s0)); [apply nd_ws_connect|]. apply emits_bind; [apply nd_start_loops | intros ?; apply nd_conn_done].
   - apply among_nd. unfold wsconn_reply. apply emits_bind; [apply emits_getst|]. intros s0.
     destruct (if t_tout e then Some false else alookup c (wsconn_result s0)) as [[|]|]; [| |apply emits_ret].
